@@ -40,7 +40,48 @@ def dumps(d):
 SAFE_STR = {
     "pygments_style": ["monokai", "default", "vim", "native"],
     "console_logging_format": ["%(message)s", "[%(levelname)s] %(message)s"],
+    # consumed by evo.tools.plot at import time (matplotlib / seaborn validate
+    # them): valid values only, like the two above
+    "plot_backend": ["Agg", "agg", "pdf", "svg"],
+    "plot_seaborn_style": ["darkgrid", "whitegrid", "dark", "white", "ticks"],
+    "plot_fontfamily": ["sans-serif", "serif", "monospace"],
+    "plot_legend_loc": ["best", "upper left", "lower right", "center"],
+    "plot_texsystem": ["pdflatex", "xelatex", "lualatex"],
+    "ros_map_viewport": ["update", "keep_unchanged", "zoom_to_map"],
 }
+PLOT_IMPORT_KEYS = ("plot_backend", "plot_seaborn_enabled",
+                    "plot_seaborn_style", "plot_fontfamily", "plot_fontscale",
+                    "plot_seaborn_palette", "plot_legend_loc",
+                    "plot_linewidth", "plot_usetex", "plot_texsystem")
+
+
+def plot_import_safe(settings: dict) -> bool:
+    """would importing evo.tools.plot with these settings be accepted by
+    matplotlib / seaborn?  (the harness only imports it then)"""
+    try:
+        if settings["plot_backend"] not in SAFE_STR["plot_backend"]:
+            return False
+        for k in ("plot_seaborn_style", "plot_fontfamily", "plot_legend_loc",
+                  "plot_texsystem", "ros_map_viewport"):
+            if settings[k] not in SAFE_STR[k]:
+                return False
+        fs = settings["plot_fontscale"]
+        if isinstance(fs, bool) or not isinstance(fs, (int, float)) or not (
+                0.1 <= fs <= 100):
+            return False
+        lw = settings["plot_linewidth"]
+        if isinstance(lw, bool) or not isinstance(lw, (int, float)) or lw < 0:
+            return False
+        if not isinstance(settings["plot_usetex"], bool) or not isinstance(
+                settings["plot_seaborn_enabled"], bool):
+            return False
+        pal = settings["plot_seaborn_palette"]
+        if isinstance(pal, str):
+            return pal in PALETTES
+        return isinstance(pal, list) and len(pal) > 0 and all(
+            c in COLORS for c in pal)
+    except KeyError:
+        return False
 GENERIC_STR = [
     "abc", "x_y", "Greys", "dotted", "png", "pdf", "best", "xz", "upper left",
     "jet", "m", "km", ":", "sans-serif", "0.5a", "tab10", "none_", "v2",
@@ -118,6 +159,8 @@ def gen_other_config(rng, dflt, extra_keys=True):
             out[k] = [rng.choice([1, 2, 3, 5, 8]) for _ in range(2)]
         elif k in SAFE_STR:
             out[k] = rng.choice(SAFE_STR[k])
+        elif k == "plot_seaborn_palette":
+            out[k] = rng.choice(PALETTES)
         else:
             out[k] = rng.choice(GENERIC_STR)
     if extra_keys and rng.random() < 0.4:
